@@ -453,6 +453,19 @@ class C14(Property):
                 for i, piece in enumerate(pieces):
                     genes.append({"name": f"g{i}", "strand": strand, "region": 0, "motifs": rng.random() < 0.2,
                                   "domains": self.place(rng, piece, scramble=False)})
+                # things that must stop a merge at a cut: a gene without domains in between (with or
+                # without motifs), a region border, a strand change
+                r = rng.random()
+                cut = rng.randrange(1, len(genes))
+                if r < 0.2:
+                    genes.insert(cut, {"name": "gap", "strand": strand, "region": 0, "motifs": rng.random() < 0.4,
+                                       "domains": []})
+                elif r < 0.35:
+                    for g in genes[cut:]:
+                        g["region"] = 1
+                elif r < 0.45:
+                    for g in genes[cut:]:
+                        g["strand"] = -strand
             else:
                 for i in range(n):
                     g = self.gene(rng, f"g{i}", strand if rng.random() < 0.85 else -strand, 6,
@@ -768,6 +781,9 @@ class C14(Property):
                 problems.append("assembly line: a reported module is not a contiguous block of the genes' domains "
                                 "read in transcription order (upstream gene's trailing end + downstream gene's "
                                 "leading end), or modules are out of order across genes")
+            if not spec["blocks"]:
+                problems.append("neighbours: a reported module spans genes that are not direct neighbours of one "
+                                "region and one strand (separator inside a module)")
             for g, sg in zip(og, spec["genes"]):
                 if g.get("cds_reload") is not True:
                     problems.append(f"{g['name']}:CDSResult reload={g.get('cds_reload')}")
